@@ -451,8 +451,8 @@ func caseExpand(g *Gen) run.Case {
 }
 func voxelArg(g *Gen) (string, []string) {
 	switch {
-	case g.Chance(0.02): // fewer than five fields: the function indexes out of range (modelled: panic)
-		return arityString(g, 1+g.Intn(4)), []string{"short-input(panics, modelled)"}
+	case g.Chance(0.03): // fewer than five fields: the function returns the empty slice
+		return arityString(g, g.Intn(5)), []string{"short-input(empty result)"}
 	case g.Chance(0.05): // five or more fields with unparsable / overflowing fields: errors are discarded by the function
 		n := 5 + g.Intn(3)
 		return arityString(g, n), []string{"malformed:>=5 fields"}
